@@ -1,5 +1,6 @@
 import Proofs.Lemmas.RoundTripDescent
 import Proofs.Lemmas.RoundTripNF
+import Proofs.Lemmas.RoundTripPaths5
 import Proofs.Lemmas.LowerNorm
 /-!
 # Round trip, part 12: `try_parse` on the printed pattern
@@ -17,7 +18,7 @@ theorem irFlags_norm (f : ES.Flags) :
 
 theorem parse_print_core {f : ES.Flags} {a : ES.Node} {r : Regex}
     (hC : ∀ P T, ClassAtoms P T) (hc : ClsScan (irFlags f)) (hv : VClsScan (irFlags f))
-    (hlex : lexOK a = true) (hnd : ((ES.namedGroups a 0).map (·.1)).Nodup)
+    (hlex : lexOK a = true) (hnd : noDup a = true)
     (hir : toIR f a = .ok r) : Parse.parse (printPattern f a) (irFlags f) = .ok r := by
   -- what `toIR` did
   simp only [toIR] at hir
@@ -38,8 +39,7 @@ theorem parse_print_core {f : ES.Flags} {a : ES.Node} {r : Regex}
   -- the pre-scan
   have hpre := prescan_print hc hv (normalize a)
     { input := pr .disj (normalize a), flags := irFlags f } rfl rfl rfl rfl
-    (lower_modeOK _ _ _ _ _ _ hbody) (lexOK_normalize a hlex) (by omega)
-    (by rw [hcounts.2 0]; exact hnd)
+    (lower_modeOK _ _ _ _ _ _ hbody) (lexOK_normalize a hlex) (by omega) (noDup_normalize a hnd)
   -- the descent
   have hdisj := (node_ok (normalize a) (ES.countParens (normalize a)) (hC _ _) (normalize a)).disj
     { input := pr .disj (normalize a), flags := irFlags f,
